@@ -26,6 +26,15 @@ class PrivDevice(CliDevice):
     def __init__(self, *a, pw_limit: int = 3, **kw):
         super().__init__(*a, **kw)
         self.pw_limit = pw_limit
+        self.login_level = self.mode
+        self.sessions_opened = 0
+
+    def connect(self) -> bytes:
+        """a new session (the connection object is opened, or re-opened): it starts at the login level, nothing pending"""
+        self.sessions_opened += 1
+        self.mode, self.session_name, self.pending, self.pw_tries = self.login_level, "", None, 0
+        self.linebuf.clear()
+        return super().connect()
 
     def _execute(self, raw: bytes) -> bytes:
         if self.pending is None:
@@ -46,6 +55,10 @@ class PrivDevice(CliDevice):
 
 
 class _TimeoutMixin:
+    def _do_open(self):
+        self.buf.clear()          # a new session: nothing of the previous one is left on the wire
+        super()._do_open()
+
     def _empty(self):
         self.trace.append(("stall",))
         if not hasattr(self, "stalls"):
@@ -98,6 +111,10 @@ def _call(conn, op):
     if k == "g":
         conn._generic_driver_mode = op[1]
         return None
+    if k == "O":
+        return conn.open()
+    if k == "X":
+        return conn.close()
     raise ValueError(op)
 
 
@@ -114,23 +131,33 @@ def _instrument(conn, bound):
     orig_acq = conn.acquire_priv
 
     def acq(desired_priv):
-        st["dest"] = desired_priv
+        # the belief when acquire_priv is CALLED, and the number of the get_prompt round inside this call
+        st["dest"], st["acq_belief"], st["acq_round"] = desired_priv, conn._current_priv_level.name, 0
         return orig_acq(desired_priv)
     conn.acquire_priv = acq
 
     def note():
         st["rounds"] += 1
-        st["probe"].append((conn._current_priv_level.name, dev.mode_name(), st["dest"]))
+        st["probe"].append((conn._current_priv_level.name, dev.mode_name(), st["dest"], st.get("acq_belief"), st.get("acq_round", 0)))
+        st["acq_round"] = st.get("acq_round", 0) + 1
         if st["rounds"] > bound:
             raise HarnessAbort(f"more than {bound} get_prompt rounds")
+        return len(st["probe"]) - 1
+
+    def seen(i, prompt):
+        st["probe"][i] = st["probe"][i] + (prompt,)      # the prompt string this round read
     if conn.__class__.__name__.startswith("Async"):
         async def counted():
-            note()
-            return await orig()
+            i = note()
+            p = await orig()
+            seen(i, p)
+            return p
     else:
         def counted():
-            note()
-            return orig()
+            i = note()
+            p = orig()
+            seen(i, p)
+            return p
     conn.channel.get_prompt = counted
     return st
 
@@ -146,11 +173,15 @@ def _mk(platform, dev, stack, secondary, kw):
     return make_conn(platform, dev, stack=stack, transport_cls=tcls, auth_secondary=secondary, **kw)
 
 
-def run_history(platform, dev, ops, secondary="", stack="sync", round_bound=400, **kw):
-    """-> (records, snapshots, transport, conn); one record per op"""
+def run_history(platform, dev, ops, secondary="", stack="sync", round_bound=400, hooks=False, **kw):
+    """-> (records, snapshots, transport, conn); one record per op.  hooks=True: the platform's real on_open / on_close hooks
+    stay installed and the connection is NOT opened here — the history opens, closes and re-opens it (ops "O" / "X")."""
     assert stack == "sync"
-    conn, t = _mk(platform, dev, stack, secondary, dict(kw, on_open=lambda c: None))
-    conn.open()
+    if hooks:
+        conn, t = _mk(platform, dev, stack, secondary, dict(kw))
+    else:
+        conn, t = _mk(platform, dev, stack, secondary, dict(kw, on_open=lambda c: None))
+        conn.open()
     st = _instrument(conn, round_bound)
     recs, snaps = [], [snapshot(conn)]
     for op in ops:
@@ -170,11 +201,14 @@ def run_history(platform, dev, ops, secondary="", stack="sync", round_bound=400,
     return recs, snaps, t, conn
 
 
-async def arun_history(platform, dev, ops, secondary="", stack="async", round_bound=400, **kw):
+async def arun_history(platform, dev, ops, secondary="", stack="async", round_bound=400, hooks=False, **kw):
     async def noop(c):
         return None
-    conn, t = _mk(platform, dev, "async", secondary, dict(kw, on_open=noop))
-    await conn.open()
+    if hooks:
+        conn, t = _mk(platform, dev, "async", secondary, dict(kw))
+    else:
+        conn, t = _mk(platform, dev, "async", secondary, dict(kw, on_open=noop))
+        await conn.open()
     st = _instrument(conn, round_bound)
     recs, snaps = [], [snapshot(conn)]
     for op in ops:
@@ -194,6 +228,22 @@ async def arun_history(platform, dev, ops, secondary="", stack="async", round_bo
             snaps.append(snapshot(conn))
     conn._probe = st["probe"]
     return recs, snaps, t, conn
+
+
+def classify_prompt(levels, prompt):
+    """which levels classify a prompt string — written from the documented rule (pattern searched with MULTILINE|IGNORECASE, unless a
+    not_contains substring occurs), independently of scrapli's `_determine_current_priv`; levels: {name: (pattern, not_contains)}"""
+    import re
+    out = []
+    for name, (pattern, not_contains) in levels.items():
+        if any(x in prompt for x in not_contains):
+            continue
+        try:
+            if re.search(pattern, prompt, flags=re.M | re.I):
+                out.append(name)
+        except re.error:
+            continue          # a pattern that does not even compile classifies nothing (the driver under test will raise on it)
+    return out
 
 
 # ---------- tables
@@ -283,20 +333,29 @@ def enc_op(op):
         return f"R,{hx(op[1])}"
     if k == "g":
         return f"g,{int(op[1])}"
+    if k in ("O", "X"):
+        return k
     raise ValueError(op)
+
+
+def enc_hook(stmts):
+    return _j(";", ("a" if s[0] == "acquire" else {"command": "c", "input": "i", "raw": "r"}[s[0]] + "," + hx(s[1]) for s in stmts))
 
 
 def enc_snaps(snaps):
     return _j(";", (f"{n}," + _j(":", (".".join([hx(a)] + [hx(x) for x in nbs]) for a, nbs in ents)) for n, ents in snaps))
 
 
-def encode_request(rows, default, secondary, abort, sess, blocked, password, pw_limit, fail_lines, extras, login, snaps, ops, belief="DUMMY"):
+def encode_request(rows, default, secondary, abort, sess, blocked, password, pw_limit, fail_lines, extras, login, snaps, ops, belief="DUMMY",
+                   hooks=None):
+    """hooks: None = no hooks, connection already open; (on_open stmts, on_close stmts) = hooks installed, connection not yet opened"""
     return " ".join([
         enc_table(rows), hx(default), hx(secondary), enc_abort(abort), enc_sess(sess),
         _j(";", (f"{hx(m)},{hx(c)}" for m, c in sorted(blocked))),
         "n" if password is None else "s," + hx(password), str(pw_limit), _j(":", map(hx, fail_lines)),
         _j(";", (f"{hx(a)},{hx(b)},{hx(c)}" for a, b, c in extras)),
-        hx(login), hx(belief), enc_snaps(snaps), _j(";", map(enc_op, ops))])
+        hx(login), hx(belief), enc_snaps(snaps), enc_hook(hooks[0] if hooks else []), enc_hook(hooks[1] if hooks else []),
+        "0" if hooks else "1", _j(";", map(enc_op, ops))])
 
 
 def unhx(s):
